@@ -343,6 +343,12 @@ func c10Truncate(c *Ctx) {
 		Fork: func(st *State, call *ssa.Call) []map[int]Val {
 			switch callee(call) {
 			case "(*os.File).Truncate":
+				// Truncate(0): the old content is dropped
+				if k, isK := call.Call.Args[len(call.Call.Args)-1].(*ssa.Const); isK && k.Value != nil && constInt64(k) == 0 {
+					st.Emit("blanked", "", call)
+					return []map[int]Val{{0: {N: NNil, Class: ClsNil}}, {0: {N: NNon, Class: ClsOther}}}
+				}
+				st.Emit("sized", "", call)
 				// the size must be the index length
 				lenOK := hasOrigin(call.Call.Args[len(call.Call.Args)-1], func(o string) bool { return strings.Contains(o, "desync.Index).Length#0") })
 				s1 := map[int]Val{0: {N: NNil, Class: ClsNil, Sym: "truncated"}}
@@ -419,6 +425,26 @@ func c10Truncate(c *Ctx) {
 			// a file that was (re-)initialised without an accepted state no longer matches whatever is
 			// in the state-save file: that file is replaced before NewSparseFile returns, or a process
 			// killed before its first save leaves a full-size file next to a stale state
+			// order of the three steps of a re-initialisation: the stale state is replaced before the file
+			// is touched (a failure or a kill in between must not leave a full-size file next to it), and
+			// the file is emptied before it is brought to its size (what it held is not data of this
+			// index; null-chunk ranges are never loaded and must read as zeros)
+			if trunc && !state {
+				pos := map[string]int{"state-written": -1, "blanked": -1, "sized": -1}
+				for i, e := range st.Events {
+					if _, want := pos[e.Kind]; want && pos[e.Kind] < 0 {
+						pos[e.Kind] = i
+					}
+				}
+				if pos["state-written"] >= 0 && pos["sized"] >= 0 && pos["state-written"] > pos["sized"] {
+					bad = append(bad, fmt.Sprintf("NewSparseFile (return at %s) brings the file to its full size before it replaces the saved state: a failure to write the state, or a kill between the two steps, leaves a file of the indexed size next to the stale state, which the next start accepts", c.pos(ret.Pos())))
+					return
+				}
+				if pos["sized"] >= 0 && (pos["blanked"] < 0 || pos["blanked"] > pos["sized"]) {
+					bad = append(bad, fmt.Sprintf("NewSparseFile (return at %s) re-initialises an existing file by Truncate(idx.Length()) alone, which keeps what the file held: ranges of null chunks are never loaded, a file left over from another version of the image is served in place of the zeros of the blob", c.pos(ret.Pos())))
+					return
+				}
+			}
 			if trunc && !state && !st.Has("state-written") {
 				bad = append(bad, fmt.Sprintf("NewSparseFile returns at %s after re-initialising the file without replacing the saved state: if the process dies before it saves its own state, the next start finds a file of the indexed size next to the stale state and serves the holes of the file for chunks marked done in it (trail %s)", c.pos(ret.Pos()), tailOf(st.Trail, 8)))
 				return
